@@ -7,7 +7,9 @@ READY = True
 THEOREMS = ["C02.sets_closed", "C02.sets_exact", "C02.fuel_enough", "C02.det_complete", "C02.fact_lang_eq", "C02.exact", "C02.reject_raises", "C02.exact_templates", "C02.smart_indep",
             "C02.conflict_report_exact", "C02.ll1_as_written_unambiguous"]
 RULE = ("one case = one generated grammar (generators and dimensions as C01 - templates, argument kinds, several parser objects, "
-        "str / list-of-lines input - with more LL(1)-ish grammars incl. unit productions over a nullable symbol declared before productions "
+        "str / list-of-lines input - with more LL(1)-ish grammars, groups of 3-9 alternatives behind one leading symbol (suffix symbols with more "
+        "than 5 productions survive the smart undo), a well-formed non-left-recursive grammar must be accepted with both "
+        "settings, incl. unit productions over a nullable symbol declared before productions "
         "starting with the same symbol; right-recursive LL(1) grammars on sentences and non-sentences of "
         "150, 500 and 2000 tokens; every 50th accepted grammar is also used by two threads at once and each call must give the "
         "sequential answer), constructed with "
@@ -53,6 +55,9 @@ def oracle(case, replies):
         ctx = _judge(ctx)
         g, start, smart = ctx["g"], ctx["start"], ctx["smart"]
         if op == "g":
+            if ctx["check"] and not ctx["ok"]:
+                # a well-formed grammar without left recursion has a language for BOTH settings of smart_factorization
+                return "valid-grammar-rejected: well-formed productions, no symbol reaches itself without a token, constructor says %r (smart=%s)" % (rep, smart)
             if ctx["ll1"] and rep != "ok amb=0":
                 return "ll1-reported-ambiguous: predict sets of all alternatives are pairwise disjoint, constructor says %r (smart=%s)" % (rep, smart)
             if ctx["ok"] and first_ok is None:
@@ -61,7 +66,7 @@ def oracle(case, replies):
             return "ll1-reported-ambiguous-after-parsing: an LL(1) grammar is reported ambiguous once texts have been parsed (%s, smart=%s)" % (rep, smart)
         elif op in ("p", "pl") and ctx["check"] and ctx["unamb"]:
             text = ll.dec_p(line)
-            toks = ll.expected_tokens(case, text)
+            toks = ll.expected_tokens(case, text, op == "pl")
             if text in case.get("member", {}):
                 member = case["member"][text]          # long inputs: membership is known by construction
             else:
